@@ -101,7 +101,9 @@ public entry points (notes/API_SURFACE.md) -> where they are exercised:
                                                structures returned by parse_relations and then EDITED IN PLACE at every
                                                nesting level (PkgRelationEdit: in the domain -- "all relation
                                                structures", however the caller came by them): replay of every edit
-                                               history of TLC + step 7 of every recorded execution
+                                               history of TLC + step 7 of the recorded executions; in every 4th
+                                               of both the edited structure is the one the relations property of an
+                                               unmodified paragraph returned
   caller-supplied objects that FAIL            (notes/SIZE_STRESS.md part 5) PkgRelation.str(faulting twin of r): the
                                                result list / a conjunct (list subclass whose iteration raises at the
                                                first / a middle / the last item / its end) or a dict (the n-th lookup
@@ -1299,7 +1301,7 @@ def describe_edit(e, conc):
             "rev": "%s.reverse()"}[e["op"]] % ((at,) if e["op"] in ("append", "rev") else (at, e["k"] - 1))
 
 
-def run_edits(start_py, edits, trail_abs, conc, api=0, style=0, each=True, first=None, diag=None, salt=0):
+def run_edits(start_py, edits, trail_abs, conc, api=0, style=0, each=True, first=None, diag=None, salt=0, via=None):
     """the history of PkgRelationEdit on the real class: format and parse the start structure, apply the edits to
     the PARSED objects, and -- after every edit (each) or after the last one -- format / parse / format what the
     caller now holds.  Expected structures are TLC's (trail_abs[n], built independently of the live object).
@@ -1309,23 +1311,37 @@ def run_edits(start_py, edits, trail_abs, conc, api=0, style=0, each=True, first
     if msg:
         return msg, o["s"]
     live, s = o["p"], o["s"]
+    how = "parse_relations(%s)" % ab(s)
+    if via is not None:
+        # the structure the caller edits comes out of the `relations` property of an unmodified paragraph object
+        cls_name, field, form, _, _ = mixin_plan(via)
+        how = "%s(%s input).relations[%r] for %s: %s" % (cls_name, form, spell(field, via), field, ab(s))
+        try:
+            with warnings.catch_warnings(record=True):
+                warnings.simplefilter("always")
+                para = make_paragraph(cls_name, field, s, form)
+                live = para.relations[spell(field, via)]
+        except Exception as ex:       # noqa: BLE001 -- observation
+            return "%s raised %s: %s" % (how, type(ex).__name__, ex), s
+        if live != start_py:
+            return "%s = %s, specification (Inverse): %s" % (how, ab(live), ab(start_py)), s
     s_last, done = s, []
     for n, e in enumerate(edits):
         done.append(describe_edit(e, conc))
         try:
             apply_edit(live, e, conc, style + n)
         except Exception as ex:       # noqa: BLE001 -- observation
-            return "after result = parse_relations(%s): %s raised %s: %s" % (ab(s), "; ".join(done), type(ex).__name__, ex), s
+            return "after result = %s: %s raised %s: %s" % (how, "; ".join(done), type(ex).__name__, ex), s
         if not each and n < len(edits) - 1:
             continue
         want = build(trail_abs[n], conc)
         if live != want:
-            return "after result = parse_relations(%s): %s: the structure the caller holds is %s, specification (ApplyEdit): %s" % (
-                ab(s), "; ".join(done), ab(live), ab(want)), s
+            return "after result = %s: %s: the structure the caller holds is %s, specification (ApplyEdit): %s" % (
+                how, "; ".join(done), ab(live), ab(want)), s
         oe = run_real(live, api + n, fault=salt + 5 * n if (style + n) % 2 == 0 else None, diag=diag)
         m = judge(want, oe)
         if m:
-            return "result = parse_relations(%s); %s; now r = result = %s: %s" % (ab(s), "; ".join(done), ab(want, 300), m), oe["s"]
+            return "result = %s; %s; now r = result = %s: %s" % (how, "; ".join(done), ab(want, 300), m), oe["s"]
         s_last = oe["s"]
     return None, s_last
 
@@ -1906,7 +1922,10 @@ def _replay_edit(line):
     conc = Conc.draw(rng, edit_conc_need(c), canonical=mode == "canonical", stress=mode == "boundary lengths")
     order, api, style, each = (hs >> 4) % len(KEY_ORDERS), (hs >> 2) % API_VARIANTS, (hs >> 5) % EDIT_STYLES, (hs >> 7) % 2 == 0
     diag = {}
-    msg, s = run_edits(build(c["start"], conc, order=order), c["edits"], c["trail"], conc, api, style, each, diag=diag, salt=hs & 0xffffff)
+    via = mix_no(hs) if (hs >> 9) % 4 == 0 else None     # every 4th history edits what the relations property returned
+    if via is not None:
+        diag["edit_histories_on_the_relations_property"] = 1
+    msg, s = run_edits(build(c["start"], conc, order=order), c["edits"], c["trail"], conc, api, style, each, diag=diag, salt=hs & 0xffffff, via=via)
     drift = None
     if msg is None and s != tokens_to_text(c["tokens"], conc):
         drift = "formatter writes %r for an edited structure, Format predicts %r (blank details are not part of the property)" % (
@@ -1915,7 +1934,7 @@ def _replay_edit(line):
            "msg": None, "case": None, "drift": drift, "sample": None, "diag": diag}
     if msg:
         out["msg"] = "[in-place edits] " + msg
-        out["case"] = dict(c, kind="edit", conc=conc.to_json(), order=order, api=api, style=style, each=each, salt=hs & 0xffffff)
+        out["case"] = dict(c, kind="edit", conc=conc.to_json(), order=order, api=api, style=style, each=each, salt=hs & 0xffffff, via=via)
     elif h % 499 == 0:
         out["sample"] = "CASE of PkgRelationEdit: result = parse_relations(%r); %s -> str(result) = %r parses back to the edited structure, no warning, same string again" % (
             PkgRelation_str_of(c["start"], conc), "; ".join(describe_edit(e, conc) for e in c["edits"]), s)
@@ -2137,6 +2156,7 @@ def record(r_py, stats=None, edit=True):
         k = zlib.crc32(o["s"].encode("utf-8", "replace")) & 0x7fffffff
         cls_name, field, form, _, align = mixin_plan(k)
         notes = []
+        pm_live = None
         try:
             with warnings.catch_warnings(record=True) as w:
                 warnings.simplefilter("always")
@@ -2149,6 +2169,7 @@ def record(r_py, stats=None, edit=True):
                 others = [para.relations[f.lower()] for c, f in MIXIN_FIELDS if c == cls_name and f != field]
                 sm = call_str(pm, k)
             trace["pm"] = abstract(pm, conc)
+            pm_live = pm
             trace["mixok"] = not emitted(w) and sm == o["s"] and all(x == [] for x in others)
             observed["relations_property"] = {"object": "%s(%s%s).relations[%r]" % (cls_name, form, "" if notes else " input", spell(field, k)),
                                               "parsed": repr(pm), "warnings": [str(x.message) for x in emitted(w)],
@@ -2193,6 +2214,9 @@ def record(r_py, stats=None, edit=True):
             with warnings.catch_warnings(record=True):
                 warnings.simplefilter("always")
                 live = call_parse(o["s"], api + 1)
+                if k % 4 == 1 and pm_live is not None:
+                    live = pm_live                    # what the relations property returned (abstracted above: pm)
+                    observed["edited_structure_from"] = "the relations property"
                 stage = "an in-place edit of the parsed structure"
                 edits = gen_edits(rng, live, conc, rng.choice((1, 1, 2, 3, 4)))
             oe = run_real(live, api + 2, fault=k >> 3 if k % 2 else None, diag=stats)
@@ -2633,7 +2657,7 @@ def replay(ctx, case):
         return msg
     if case["kind"] == "edit":
         msg, _ = run_edits(build(case["start"], conc, order=case.get("order")), case["edits"], case["trail"], conc,
-                           case.get("api", 0), case.get("style", 0), case.get("each", True), salt=case.get("salt", 0))
+                           case.get("api", 0), case.get("style", 0), case.get("each", True), salt=case.get("salt", 0), via=case.get("via"))
         return "[in-place edits] " + msg if msg else None
     if case["kind"] == "trace":
         r_py = build(case["abstract"], conc)
